@@ -1,6 +1,7 @@
 ----------------------------- MODULE LinesTrace -----------------------------
 (* Validation of outputs recorded from the real LinesCodec against the LinesCodec operators:      *)
-(* record {"ev":"vec","in":bytes,"dec":items of repeated decode,"eof":items of repeated decode_eof}*)
+(* record {"ev":"vec","in":bytes,"dec":items of repeated decode,"eof":items of repeated decode_eof,   *)
+(* "eofonly": items of repeated decode_eof on a fresh codec and the whole input}                   *)
 (* must equal All(in) and the reference RefLines(in); record {"ev":"rt","items","enc","dec"} must  *)
 (* equal the encoding / whole-buffer decoding of the spec.  One record per step.                   *)
 EXTENDS LinesCodec, TLC, Json, IOUtils
@@ -11,6 +12,7 @@ RECURSIVE EncAll(_)
 EncAll(t) == IF t = <<>> THEN <<>> ELSE Encode(t[1]) \o EncAll(Tail(t))
 RecOK(r) == \/ r.ev = "reset"
             \/ r.ev = "vec" /\ <<r.dec, r.eof>> = All(r.in) /\ <<r.dec, r.eof>> = RefLines(r.in)
+                          /\ r.eofonly = EofOnly(r.in) /\ r.eofonly = r.dec \o r.eof
             \/ r.ev = "rt" /\ r.enc = EncAll(r.items) /\ r.dec = AllFlat(r.enc)
 TInit == l = 0
 TNext == l < Len(Rec) /\ RecOK(Rec[l + 1]) /\ l' = l + 1
